@@ -17,10 +17,10 @@ From Coq Require Import List Arith Bool.
 Import ListNotations.
 
 Inductive kind := KSock | KEpoll | KEfd.
-Inductive sysc := SEpoll | SEfd | SAdd | SSock.
+Inductive sysc := SEpoll | SEfd | SAdd | SSock | SOpt.
 
 Definition sysc_eqb (a b : sysc) : bool :=
-  match a, b with SEpoll, SEpoll | SEfd, SEfd | SAdd, SAdd | SSock, SSock => true | _, _ => false end.
+  match a, b with SEpoll, SEpoll | SEfd, SEfd | SAdd, SAdd | SSock, SSock | SOpt, SOpt => true | _, _ => false end.
 
 (* the index-th call (from 0) of the given kind fails; None: nothing fails *)
 Record fault := mkFault { f_call : sysc; f_index : nat }.
@@ -36,17 +36,17 @@ Record st := mkSt {
   nxt : nat;                       (* next creation index *)
   opn : list (nat * kind);         (* everything ever created, newest first *)
   cls : list nat;                  (* every close(2) issued, newest first *)
-  n_epoll : nat; n_efd : nat; n_add : nat; n_sock : nat;   (* calls made so far, per injectable kind *)
+  n_epoll : nat; n_efd : nat; n_add : nat; n_sock : nat; n_opt : nat;   (* calls made so far, per injectable kind *)
   gos : nat;                       (* goroutines started *)
 }.
 
-Definition st0 : st := mkSt 0 [] [] 0 0 0 0 0.
+Definition st0 : st := mkSt 0 [] [] 0 0 0 0 0 0.
 
 Definition create (k : kind) (s : st) : nat * st :=
-  (nxt s, mkSt (S (nxt s)) ((nxt s, k) :: opn s) (cls s) (n_epoll s) (n_efd s) (n_add s) (n_sock s) (gos s)).
+  (nxt s, mkSt (S (nxt s)) ((nxt s, k) :: opn s) (cls s) (n_epoll s) (n_efd s) (n_add s) (n_sock s) (n_opt s) (gos s)).
 
 Definition close (id : nat) (s : st) : st :=
-  mkSt (nxt s) (opn s) (id :: cls s) (n_epoll s) (n_efd s) (n_add s) (n_sock s) (gos s).
+  mkSt (nxt s) (opn s) (id :: cls s) (n_epoll s) (n_efd s) (n_add s) (n_sock s) (n_opt s) (gos s).
 
 (* listener.close: sync.Once -- a listener that has been closed is not closed again *)
 Definition close_once (id : nat) (s : st) : st :=
@@ -55,7 +55,7 @@ Definition close_once (id : nat) (s : st) : st :=
 Definition close_all_once (ids : list nat) (s : st) : st := fold_left (fun s id => close_once id s) ids s.
 
 Definition go (n : nat) (s : st) : st :=
-  mkSt (nxt s) (opn s) (cls s) (n_epoll s) (n_efd s) (n_add s) (n_sock s) (gos s + n).
+  mkSt (nxt s) (opn s) (cls s) (n_epoll s) (n_efd s) (n_add s) (n_sock s) (n_opt s) (gos s + n).
 
 Definition fails (f : option fault) (c : sysc) (n : nat) : bool :=
   match f with Some ft => sysc_eqb (f_call ft) c && Nat.eqb (f_index ft) n | None => false end.
@@ -63,10 +63,11 @@ Definition fails (f : option fault) (c : sysc) (n : nat) : bool :=
 (* one injectable call: returns whether it failed, and the state with the call counted *)
 Definition call (f : option fault) (c : sysc) (s : st) : bool * st :=
   match c with
-  | SEpoll => (fails f c (n_epoll s), mkSt (nxt s) (opn s) (cls s) (S (n_epoll s)) (n_efd s) (n_add s) (n_sock s) (gos s))
-  | SEfd => (fails f c (n_efd s), mkSt (nxt s) (opn s) (cls s) (n_epoll s) (S (n_efd s)) (n_add s) (n_sock s) (gos s))
-  | SAdd => (fails f c (n_add s), mkSt (nxt s) (opn s) (cls s) (n_epoll s) (n_efd s) (S (n_add s)) (n_sock s) (gos s))
-  | SSock => (fails f c (n_sock s), mkSt (nxt s) (opn s) (cls s) (n_epoll s) (n_efd s) (n_add s) (S (n_sock s)) (gos s))
+  | SEpoll => (fails f c (n_epoll s), mkSt (nxt s) (opn s) (cls s) (S (n_epoll s)) (n_efd s) (n_add s) (n_sock s) (n_opt s) (gos s))
+  | SEfd => (fails f c (n_efd s), mkSt (nxt s) (opn s) (cls s) (n_epoll s) (S (n_efd s)) (n_add s) (n_sock s) (n_opt s) (gos s))
+  | SAdd => (fails f c (n_add s), mkSt (nxt s) (opn s) (cls s) (n_epoll s) (n_efd s) (S (n_add s)) (n_sock s) (n_opt s) (gos s))
+  | SSock => (fails f c (n_sock s), mkSt (nxt s) (opn s) (cls s) (n_epoll s) (n_efd s) (n_add s) (S (n_sock s)) (n_opt s) (gos s))
+  | SOpt => (fails f c (n_opt s), mkSt (nxt s) (opn s) (cls s) (n_epoll s) (n_efd s) (n_add s) (n_sock s) (S (n_opt s)) (gos s))
   end.
 
 (* netpoll.OpenPoller: epoll_create1, eventfd, epoll_ctl ADD of the eventfd; what it created is closed
@@ -99,7 +100,11 @@ Fixpoint create_socks (f : option fault) (n : nat) (s : st) : list nat * st * bo
       let '(bad, s0) := call f SSock s in
       if bad then ([], s0, false) else
       let '(id, s1) := create KSock s0 in
-      let '(ids, s2, ok) := create_socks f m s1 in (id :: ids, s2, ok)
+      (* the options applied to the open listener (TCP keep-alive): when that fails, initListener closes the
+         listener it has just opened and reports the error *)
+      let '(bad2, s1') := call f SOpt s1 in
+      if bad2 then ([], close id s1', false) else
+      let '(ids, s2, ok) := create_socks f m s1' in (id :: ids, s2, ok)
   end.
 
 (* a registered event loop: its listeners and its poller *)
